@@ -50,7 +50,8 @@ Lemma bundle_elements_go_body bs : forall fuel m len pos n tail,
 Proof.
   induction bs as [|b bs IH]; intros fuel m len pos n tail Hok Hp H Hlen Hf.
   - destruct fuel; [cbn in Hf; lia|]. cbn [bundle_elements_go].
-    replace (len <=? pos) with true by (symmetry; apply Z.leb_le; cbn in Hlen; lia).
+    change (zlen (body [])) with 0 in Hlen.
+    replace (len <=? pos) with true by (symmetry; apply Z.leb_le; lia).
     f_equal. unfold zlen. cbn [length]. lia.
   - destruct fuel; [cbn in Hf; lia|]. cbn [bundle_elements_go].
     inversion Hok as [|? ? (Hb0 & Hb4 & Hb32) Hok']; subst.
@@ -66,7 +67,7 @@ Proof.
     pose proof (from_skip m pos _ _ Hp H) as H1. rewrite zlen_be32 in H1.
     pose proof (from_skip m (pos + 4) _ _ ltac:(lia) H1) as H2.
     replace (pos + 4 + zlen b) with (pos + (zlen b + 4)) in H2 by lia.
-    rewrite (IH fuel m _ (pos + (zlen b + 4)) (n + 1) tail Hok' ltac:(lia) H2 ltac:(lia))
+    rewrite (IH fuel m (pos + (4 + zlen b + zlen (body bs))) (pos + (zlen b + 4)) (n + 1) tail Hok' ltac:(lia) H2 ltac:(lia))
       by (cbn [length] in Hf; lia).
     f_equal. rewrite zlen_cons. lia.
 Qed.
@@ -203,7 +204,7 @@ Qed.
 
 Lemma zlen_bun ttag es :
   zlen (elem_bytes (Bun ttag es)) = 16 + zlen (body (map elem_bytes es)).
-Proof. rewrite elem_bytes_bun, !zlen_app, zlen_be64. reflexivity. Qed.
+Proof. rewrite elem_bytes_bun, !zlen_app, zlen_be64. change (zlen bundle_magic) with 8. lia. Qed.
 
 Lemma body_mod4 bs : Forall blk_ok bs -> zlen (body bs) mod 4 = 0.
 Proof.
@@ -218,22 +219,22 @@ Proof.
   destruct H as [->|H]; [lia | specialize (IH H); lia].
 Qed.
 
-Lemma elem_wf_blk e : elem_wf e -> blk_ok (elem_bytes e).
+Fixpoint elem_wf_blk (e : elem) (H : elem_wf e) {struct e} : blk_ok (elem_bytes e).
 Proof.
-  induction e as [b | ttag es IH] using
-    (fix F (e : elem) : _ :=
-       match e with
-       | Msg b => _
-       | Bun ttag es => _ (list_ind (fun l => Forall (fun x => elem_wf x -> blk_ok (elem_bytes x)) l)
-                                   (Forall_nil _) (fun x l H => Forall_cons x (F x) H) es)
-       end); intros H.
+  destruct e as [b | ttag es].
   - inversion H as [a tags args WF NB Hsz|]; subst. cbn [elem_bytes].
     destruct (enc_spec_mod4 a tags args (msg_wf_args_wf _ _ _ WF)). unfold blk_ok. lia.
-  - inversion H as [|? ? Ht Hes Hsz]; subst.
-    assert (Hall : Forall blk_ok (map elem_bytes es)).
-    { apply Forall_map. rewrite Forall_forall in *. intros x Hx. apply IH; auto. }
+  - assert (Hall : Forall blk_ok (map elem_bytes es)).
+    { assert (Hes : Forall elem_wf es) by (inversion H; assumption).
+      clear H. revert Hes.
+      refine ((fix go (l : list elem) : Forall elem_wf l -> Forall blk_ok (map elem_bytes l) :=
+                 match l with
+                 | [] => fun _ => Forall_nil _
+                 | x :: r => fun Hl => Forall_cons _ (elem_wf_blk x (Forall_inv Hl)) (go r (Forall_inv_tail Hl))
+                 end) es). }
+    inversion H as [|? ? Ht Hes Hsz]; subst.
     rewrite zlen_bun in *. pose proof (body_mod4 _ Hall). pose proof (zlen_body_nonneg (map elem_bytes es)).
-    unfold blk_ok. lia.
+    unfold blk_ok. rewrite zlen_bun. lia.
 Qed.
 
 Lemma elems_blk es : Forall elem_wf es -> Forall blk_ok (map elem_bytes es).
@@ -360,7 +361,7 @@ Proof.
   intros H. revert junks. induction H as [|e es He Hes IH]; intros junks Hl.
   - destruct junks; [reflexivity | discriminate].
   - destruct junks as [|j junks]; [discriminate|]. cbn [combine map bundle_sizes fst snd].
-    unfold elem_mem at 1. rewrite (message_length_elem e j He). cbn [bind].
+    change (elem_mem e j) with (elem_bytes e ++ z4 ++ j). rewrite (message_length_elem e j He). cbn [bind].
     rewrite IH by (cbn in Hl; lia). reflexivity.
 Qed.
 
@@ -374,10 +375,10 @@ Proof.
   - destruct junks; [|discriminate]. exists []. repeat split.
   - destruct junks as [|j junks]; [discriminate|]. cbn [combine map bundle_chunks fst snd].
     destruct (IH junks ltac:(cbn in Hl; lia)) as (cs & Hcs & Hb & Hs).
-    unfold elem_mem at 1.
+    change (elem_mem e j) with (elem_bytes e ++ z4 ++ j).
     replace (zlen (elem_bytes e ++ z4 ++ j) <? zlen (elem_bytes e)) with false.
     2:{ symmetry. apply Z.ltb_ge. rewrite zlen_app. pose proof (zlen_nonneg (z4 ++ j)). lia. }
-    unfold elem_mem in Hcs. rewrite Hcs. cbn [bind]. eexists. split; [reflexivity|]. split.
+    rewrite Hcs. cbn [bind]. eexists. split; [reflexivity|]. split.
     + cbn [chunk_bytes]. rewrite Hb, body_cons. f_equal. f_equal.
       unfold zlen. rewrite Nat2Z.id. apply firstn_zlen_app.
     + exact Hs.
@@ -432,9 +433,9 @@ Proof.
     { clear - Hall. induction Hall as [|b bs (H0 & _) _ IH]; [cbn; lia|].
       rewrite body_cons, !app_length. cbn [length]. unfold zlen in H0. lia. }
     rewrite map_length in Hl. lia. }
-  repeat split.
+  split; [|split; [|split; [|intros i e H0; split; [|split]]]].
   - unfold bundle_p, m. rewrite HB. reflexivity.
-  - unfold bundle_timetag. apply (rd64_from m 8 ttag _ ltac:(lia) Ht H8).
+  - unfold bundle_timetag. eapply rd64_from; [lia | exact Ht | exact H8].
   - unfold bundle_elements.
     rewrite (bundle_elements_go_body (map elem_bytes es) (S (length m)) m (zlen B) 16 0 rest Hall ltac:(lia) H16).
     + f_equal. unfold zlen. rewrite map_length. lia.
